@@ -242,11 +242,37 @@ def observe(spec, mask_seed, modes=('random',), wseed=0):
     rng = random.Random(mask_seed)
     for mode in modes:
         r = {'mode': mode}
-        bits = choose_masks(rng, classes, mode)
-        r['masks'] = bits
+        bits = choose_masks(rng, classes, 'random' if mode == 'loaded' else mode)
+        # the alpha of a FROZEN masker is written too (adversarial values): its mask must stay all ones
+        r['frozen_alpha'] = {}
         with torch.no_grad():
             for _, (c, fm) in cls.items():
-                fm.alpha.copy_(torch.tensor([1.0 if b else 0.0 for b in bits[c]]))
+                if classes[c][1]:
+                    adv = [rng.choice([0.0, 0.0, 1.0, -3.0, 0.25]) for _ in range(classes[c][0])]
+                    r['frozen_alpha'][c] = adv
+                    fm.alpha.copy_(torch.tensor(adv))
+                else:
+                    fm.alpha.copy_(torch.tensor([1.0 if b else 0.0 for b in bits[c]]))
+        if mode == 'loaded':
+            # the architecture parameters arrive through load_state_dict of a state taken from a differently
+            # configured PIT of the same network (nothing excluded, every masker pruned at random)
+            try:
+                m1 = CG.build(spec, seed=wseed).eval()
+                kw1 = {k_: v_ for k_, v_ in CG.pit_kwargs(spec, nn).items() if k_ not in ('exclude_names', 'exclude_types')}
+                p1 = (PIT(m1, input_shape=tuple(xs[0].shape[1:]), **kw1) if len(xs) == 1 else PIT(m1, input_example=tuple(x[:1] for x in xs), **kw1)).eval()
+                with torch.no_grad():
+                    for nm, q in p1.state_dict().items():
+                        if nm.endswith('out_features_masker.alpha'):
+                            q.copy_((torch.rand(q.shape, generator=torch.Generator().manual_seed(rng.randrange(1 << 30))) > 0.5).float())
+                p.load_state_dict(p1.state_dict(), strict=False)
+                r['loaded'] = 'ok'
+            except Exception as ex:
+                r['loaded'] = 'EXC:%s:%s' % (type(ex).__name__, str(ex)[:160])
+            # expected masks from the values that are now in the maskers (python reference of the masker)
+            for _, (c, fm) in cls.items():
+                a = [float(v) for v in fm.alpha.detach().tolist()]
+                bits[c] = [True] * len(a) if classes[c][1] else [abs(v) > 0.5 for v in a[:-1]] + [True]
+        r['masks'] = bits
         lay = {}
         for i, m in sorted(pit.items()):
             d = {}
@@ -256,6 +282,11 @@ def observe(spec, mask_seed, modes=('random',), wseed=0):
                 d['features_mask'] = [bool(v > 0.5) for v in fc.features_mask.tolist()]
             except Exception as ex:
                 d['features'] = 'EXC:%s' % type(ex).__name__
+            try:
+                if i in mk and mk[i] is not None:
+                    d['own_mask'] = [bool(v > 0.5) for v in m.features_mask.tolist()]
+            except Exception as ex:
+                d['own_mask'] = 'EXC:%s' % type(ex).__name__
             try:
                 sm = m.summary()
                 d['in_features'] = sm.get('in_features', sm.get('num_features'))
@@ -325,6 +356,117 @@ def observe(spec, mask_seed, modes=('random',), wseed=0):
             r['export'] = 'EXC:%s:%s' % (type(ex).__name__, str(ex)[:200])
         ob['runs'].append(r)
     return ob
+
+
+# ============================================================================= MPS stream (the same calculators, used by plinio.methods.mps)
+def observe_mps(spec, mask_seed, n_assign=2, wseed=0):
+    """MPS with PER_CHANNEL weight search and a 0-bit precision (= channel pruning): alive channels per weight quantizer are
+    chosen by writing its alpha; observed: every MPS layer's input_features_calculator.features and the in_channels /
+    in_features it is charged for (get_modified_vars)"""
+    torch = setup_torch()
+    import torch.nn as nn
+    from plinio.methods import MPS
+    from plinio.methods.mps import MPSType, get_default_qinfo
+    from plinio.cost import params_bit
+    ob = {'construct': 'ok', 'method': 'mps'}
+    nodes = spec['nodes']
+    xs = CG.example_input(spec, torch, seed=wseed)
+    try:
+        model = CG.build(spec, seed=wseed).eval()
+        precs = (0, 2, 4, 8)
+        p = MPS(model, cost=params_bit, input_shape=tuple(xs[0].shape[1:]), w_search_type=MPSType.PER_CHANNEL,
+                qinfo=get_default_qinfo(w_precision=precs, a_precision=(8,)), hard_softmax=True).eval()
+    except Exception as ex:
+        ob['construct'] = 'EXC:%s:%s' % (type(ex).__name__, str(ex)[:160])
+        return ob
+    mods = dict(p.seed.named_modules())
+    lay = {i: mods[CG.name(i)] for i, nd in enumerate(nodes) if nd['k'] in LAYER and CG.name(i) in mods and hasattr(mods[CG.name(i)], 'w_mps_quantizer')}
+    cls, mk = {}, {}
+    for i, m in sorted(lay.items()):
+        q = m.w_mps_quantizer
+        c = cls.setdefault(id(q), (i, q))[0]
+        mk[i] = [c, False, int(q.alpha.shape[1])]
+    ob['maskers'] = mk
+    ob['converted'] = {i: type(m).__name__ for i, m in lay.items()}
+    # a quantizer without the 0-bit precision (the network's last layer) cannot prune: all channels alive
+    classes = {c: (q.alpha.shape[1], q.zero_index is None) for _, (c, q) in cls.items()}
+    ob['runs'] = []
+    rng = random.Random(mask_seed)
+    for mode in (['random', 'min', 'first-dead', 'alternate'] * 2)[:n_assign]:
+        bits = choose_masks(rng, classes, mode)
+        r = {'mode': mode, 'masks': bits}
+        with torch.no_grad():
+            for _, (c, q) in cls.items():
+                a = torch.zeros_like(q.alpha)
+                nz = [j for j in range(a.shape[0]) if j != q.zero_index]
+                for ch, b in enumerate(bits[c]):
+                    a[rng.choice(nz) if b else q.zero_index, ch] = 10.0
+                q.alpha.copy_(a)
+        try:
+            with torch.no_grad():
+                p(*xs)           # samples the architectural coefficients
+            r['forward'] = 'ok'
+        except Exception as ex:
+            r['forward'] = 'EXC:%s:%s' % (type(ex).__name__, str(ex)[:160])
+        d = {}
+        for i, m in sorted(lay.items()):
+            e = {}
+            try:
+                e['features'] = float(m.input_features_calculator.features)
+            except Exception as ex:
+                e['features'] = 'EXC:%s' % type(ex).__name__
+            try:
+                v = m.get_modified_vars()
+                e['charged'] = float(v['in_channels'] if 'in_channels' in v and nodes[i]['k'] != 'linear' else v['in_features'])
+            except Exception as ex:
+                e['charged'] = 'EXC:%s' % type(ex).__name__
+            try:
+                e['out'] = float(m.out_features_eff)
+                e['out_mask'] = [bool(x > 0.5) for x in m.w_mps_quantizer.features_mask.tolist()]
+            except Exception as ex:
+                e['out'] = 'EXC:%s' % type(ex).__name__
+            d[i] = e
+        r['layers'] = d
+        ob['runs'].append(r)
+    return ob
+
+
+def gen_mps_spec(rng):
+    """MPS stream architecture; MPS does not cut its sharing graph at concatenations, so a residual add with a cat operand
+    (operands of different widths sharing one per-channel quantizer) does not construct: not generated here"""
+    while True:
+        spec = CG.gen_mps(rng)
+        if 'add-with-cat-operand' not in classes_of(spec):
+            return spec
+
+
+def judge_mps(spec, ob):
+    bad = []
+    nodes = spec['nodes']
+    if ob['construct'] != 'ok':
+        return [('mps-construct-raises', ob['construct'])]
+    mk = ob['maskers']
+    for r in ob['runs']:
+        maskbits = {i: r['masks'][m[0]] for i, m in mk.items()}
+        al = ref_alive(spec, maskbits)
+        r['alive_ref'] = {i: al[nodes[i]['src']] for i in ob['converted']}
+        if r['forward'] != 'ok':
+            bad.append(('mps-forward-raises', r['forward']))
+        for i in sorted(ob['converted']):
+            n = sum(al[nodes[i]['src']])
+            d = r['layers'][i]
+            if d.get('out_mask') != maskbits[i] or d.get('out') != float(sum(maskbits[i])):
+                bad.append(('mps-out-features-wrong', 'layer %d: alive output channels %r / %r, written %r' % (i, d.get('out'), d.get('out_mask'), maskbits[i])))
+            if d.get('features') != float(n):
+                bad.append(('mps-in-features-wrong', 'layer %d: input_features_calculator.features=%r, the tensor feeding it has %d alive features' % (i, d.get('features'), n)))
+            elif d.get('charged') != float(n):
+                bad.append(('mps-charged-in-features-wrong', 'layer %d: charged for %r input features, alive %d' % (i, d.get('charged'), n)))
+        for i, nd in enumerate(nodes):
+            if nd['k'] in ('add', 'sub'):
+                a, b = nd['src']
+                if al[a] != al[b]:
+                    bad.append(('mps-sum-operands-differ', 'node %d: operands %d and %d have alive sets %r and %r' % (i, a, b, al[a], al[b])))
+    return bad
 
 
 # ============================================================================= corpus (minimized failures found on the unchanged tree)
@@ -497,6 +639,11 @@ def judge(spec, ob):
         maskbits = {i: bits[m[0]] for i, m in mk.items() if m is not None}
         al = ref_alive(spec, maskbits)
         r['alive_ref'] = {i: al[nodes[i]['src']] for i in ob['converted']}
+        for i, m_ in sorted(mk.items()):
+            own = r['layers'][i].get('own_mask')
+            if m_ is not None and own is not None and own != bits[m_[0]]:
+                sym = 'frozen-masker-not-all-ones' if m_[1] else 'layer-mask-differs-from-its-masker'
+                bad.append((sym, 'layer %d: features_mask %r, its %s masker (alpha written: %r) must give %r' % (i, own, 'FROZEN' if m_[1] else 'trainable', r.get('frozen_alpha', {}).get(m_[0]), bits[m_[0]])))
         for i in sorted(ob['converted']):
             want = al[nodes[i]['src']]
             d = r['layers'][i]
@@ -624,8 +771,13 @@ def norm_calc(t):
 def _work(job):
     kind, seed, spec, modes = job
     try:
+        if kind == 'mps':
+            spec = gen_mps_spec(random.Random(seed))
+            return kind, seed, spec, observe_mps(spec, seed, n_assign=len(modes), wseed=seed % 7), None
         if spec is None:
             spec = CG.gen(random.Random(seed))
+        if spec.get('autoconvert', True) and (spec.get('exclude_names') or spec.get('exclude_types')) and 'loaded' not in modes:
+            modes = tuple(modes) + ('loaded',)
         ob = observe(spec, seed, modes=modes, wseed=seed % 7)
         return kind, seed, spec, ob, None
     except Exception:
@@ -653,6 +805,8 @@ def run(ctx):
     base = ctx.rng.randrange(1 << 30)
     for k in range(n_arch):
         jobs.append(('gen', base + k, None, _modes(ctx.rng, ctx.quick)))
+    for k in range(40 if ctx.quick else 250):
+        jobs.append(('mps', base + 100000 + k, None, ('random', 'min') if ctx.quick else ('random', 'min', 'first-dead', 'alternate')))
     from concurrent.futures import ProcessPoolExecutor
     import multiprocessing as mp
     with ProcessPoolExecutor(max_workers=min(NPROC, 10), mp_context=mp.get_context('fork')) as ex:
@@ -665,7 +819,7 @@ def run(ctx):
         desc = CG.describe(spec)
         for p in spec.get('productions', []):
             ctx.dist[p.split(':')[0] if p.startswith('cat:') else p] += 1
-        bad = judge(spec, ob)
+        bad = judge_mps(spec, ob) if kind == 'mps' else judge(spec, ob)
         joins = any(nd['k'] in ('add', 'sub', 'cat') for nd in spec['nodes']) or spec.get('exclude_names') or spec.get('exclude_types')
         for r in ob.get('runs', [{'mode': '-', 'masks': {}}]):
             pruned = any(not all(v) for v in r['masks'].values())
@@ -692,7 +846,8 @@ def run(ctx):
         mism.append((what, CG.describe(spec), info))
     if built:
         try:
-            ok_cases = [c for c in cases if c[3]['construct'] == 'ok']
+            ok_cases = [c for c in cases if c[3]['construct'] == 'ok' and c[0] != 'mps']
+            mps_cases = [c for c in cases if c[3]['construct'] == 'ok' and c[0] == 'mps']
             exprs = []
             for kind, seed, spec, ob in ok_cases:
                 net = coq_net(spec)
@@ -757,6 +912,28 @@ def run(ctx):
                         mm('shape_ok vs exported network runs', spec, {'model': shp, 'impl': (r['export'], r.get('export_forward'))})
                     if snd is not True or (auto and cons is not True):
                         mm('sound_b / consistent_b (premises of the theorems)', spec, {'sound_b': snd, 'consistent_b': cons, 'masks': r['masks']})
+            # MPS stream: the same calculators with every conv / linear searchable; features and ground truth only
+            mex = []
+            for kind, seed, spec, ob in mps_cases:
+                net = coq_net(spec)
+                for r in ob['runs']:
+                    m = '[' + '; '.join('(%d, %s)' % (i, b2c(r['masks'][mk[0]])) for i, mk in sorted(ob['maskers'].items())) + ']'
+                    mex.append('run_masks true %s %s' % (net, m))
+            mvals = ctx.coq_eval_sharded('mps', ['Plinio.Model.Calc'], 'Open Scope nat_scope.\n', mex, shard=120) if mex else []
+            k = 0
+            for kind, seed, spec, ob in mps_cases:
+                for r in ob['runs']:
+                    lay = mvals[k][0]
+                    k += 1
+                    for i, feat, mask, al in lay:
+                        d = r['layers'].get(int(i))
+                        if d is None:
+                            continue
+                        ctx.corr += 2
+                        if d.get('features') != float(feat):
+                            mm('MPS features', spec, {'layer': int(i), 'model': feat, 'impl': d, 'masks': r['masks']})
+                        if list(al) != r.get('alive_ref', {}).get(int(i)):
+                            mm('MPS alive (Coq ground truth vs python reference)', spec, {'layer': int(i), 'model': al, 'python': r.get('alive_ref', {}).get(int(i))})
         except (RuntimeError, AssertionError, KeyError, IndexError, TypeError, ValueError) as ex:
             model_ok = False
             ctx.notes.append('model evaluation failed: ' + (str(ex) or repr(ex))[-1500:] + traceback.format_exc()[-800:])
@@ -788,8 +965,12 @@ def replay(r):
     if not spec['exclude_names']:
         spec.pop('exclude_names')
     print('architecture:', CG.describe(spec))
-    ob = observe(spec, r.get('mask_seed', 0), modes=tuple(r.get('modes', ['random'])), wseed=r.get('wseed', 0))
-    bad = judge(spec, ob)
+    if spec.get('method') == 'mps':
+        ob = observe_mps(spec, r.get('mask_seed', 0), n_assign=len(r.get('modes', ['random'])), wseed=r.get('wseed', 0))
+        bad = judge_mps(spec, ob)
+    else:
+        ob = observe(spec, r.get('mask_seed', 0), modes=tuple(r.get('modes', ['random'])), wseed=r.get('wseed', 0))
+        bad = judge(spec, ob)
     print('required: in_features == alive input features for every converted layer; equal alive sets at sums; export succeeds and the exported network runs')
     for sym, detail in bad:
         print('  FAILS  %s: %s' % (key_of(sym, spec), detail))
